@@ -641,7 +641,16 @@ class Bus {
     }
     if (tr.phase == 3) {          // host acknowledges the response
       if (b == 0x00) { tr.phase = 5; return; }
-      if (b == 0xFF && tr.respAttempt == 0) { tr.respAttempt = 1; sendResponse(); return; }
+      if (b == 0xFF && tr.respAttempt == 0) {
+        tr.respAttempt = 1;
+        size_t echoIdx = g.rx.size();      // (the echo of the NAK is the last queued byte)
+        sendResponse();
+        // the echo of the NAK may be handed over in one read together with the first symbol of the repeated response (plain device; only
+        // when that keeps the echo within the host's send timeout)
+        if (echoGluePct > 0 && !enhanced && rng && echoIdx >= 1 && echoIdx < g.rx.size() && g.rx[echoIdx].t - g.rx[echoIdx - 1].t <= 5 * MS
+            && (int)rng->below(100) < echoGluePct) { g.rx[echoIdx - 1].t = g.rx[echoIdx].t; echoGlued++; }
+        return;
+      }
       tr.phase = 5;
       return;
     }
